@@ -20,7 +20,7 @@ ASSUMPTIONS = ["unit oracle hedmon/oracle/units.py (plural table hand-written; i
                "spellings with two derivations of different factor (e.g. 'uV' in 8.3.0) are excluded from the factor check"]
 MIN_MONITOR_EVALS = {"accepted-validates": 2000, "rejected-flagged": 300, "bare-number": 50, "conversion": 1500,
                      "linearity": 500, "unknown-unit-none": 300}
-NUMERALS_Q = ["3", "0.5", "2.5E-2", "-7", "+4", "12.", ".5", "1e3"]
+NUMERALS_Q = ["3", "0.5", "2.5E-2", "-7", "+4", "12.", ".5", "1e3", "0", "0.0", "-0"]
 UNIT_CODES = {"UNITS_INVALID", "VALUE_INVALID"}
 
 
